@@ -574,7 +574,10 @@ class VectorizedOptimizer(Generic[_S]):
             axis=0,
         ),
     )
-    top_indices = jnp.argpartition(-all_rewards, count - 1)[:count]
+    # lax.top_k (jnp.argpartition) puts NaN above +inf or below -inf, depending
+    # on its sign bit; rank a NaN reward like -inf: it never beats a real one.
+    ranking = jnp.where(jnp.isnan(all_rewards), -jnp.inf, all_rewards)
+    top_indices = jnp.argpartition(-ranking, count - 1)[:count]
     return VectorizedStrategyResults(
         rewards=all_rewards[top_indices],
         features=VectorizedOptimizerInput(
